@@ -2,9 +2,11 @@ mod checks;
 mod corpus;
 mod driver;
 mod gast;
+mod genprog;
 mod model;
 mod pipeline;
 mod refmodel;
+mod rsview;
 mod tape;
 
 use driver::{Ctx, DynProp, Tier, Verdict};
@@ -21,6 +23,11 @@ fn registry() -> Vec<Check> {
             id: "C03",
             run: checks::c03::run,
             props: checks::c03::props,
+        },
+        Check {
+            id: "C09",
+            run: checks::c09::run,
+            props: checks::c09::props,
         },
         Check {
         id: "C18",
@@ -98,6 +105,15 @@ fn main() {
         usage();
     }
     pipeline::install_quiet_panic_hook();
+    if args[1] == "build-once" {
+        pipeline::install_quiet_panic_hook();
+        checks::c09::build_once_cli(&args[2], args.get(3).and_then(|s| s.parse().ok()).unwrap_or(4));
+        return;
+    }
+    if args[1] == "gen-stats" {
+        gen_stats(args[2].parse().unwrap_or(1000), args.get(3).and_then(|s| s.parse().ok()).unwrap_or(4));
+        return;
+    }
     let id = args[2].clone();
     let reg = registry();
     let Some(chk) = reg.iter().find(|c| c.id == id) else {
@@ -262,4 +278,43 @@ fn main() {
         }
         _ => usage(),
     }
+}
+
+fn gen_stats(n: usize, w: u64) {
+    use proptest::strategy::{Strategy, ValueTree};
+    let mut cfg = proptest::test_runner::Config::default();
+    cfg.rng_seed = proptest::test_runner::RngSeed::Fixed(1);
+    cfg.failure_persistence = None;
+    let mut runner = proptest::test_runner::TestRunner::new(cfg);
+    let strat = proptest::collection::vec(proptest::num::u32::ANY, 100..=3000);
+    let mut errs: std::collections::BTreeMap<String, (u64, String)> = Default::default();
+    let mut ok = 0;
+    let mut items = 0;
+    let mut repairs: std::collections::BTreeMap<String, u64> = Default::default();
+    for _ in 0..n {
+        let tape = strat.new_tree(&mut runner).unwrap().current();
+        let mut t = tape::Tape::new(&tape);
+        let (prog, known, rep) = genprog::gen_prog(&mut t, genprog::GenCfg::rich(w));
+        for (k, v) in rep {
+            *repairs.entry(k).or_insert(0) += v;
+        }
+        items += known.len();
+        match pipeline::build_prog(&prog, w as usize) {
+            pipeline::Res::Ok(_) => ok += 1,
+            other => {
+                let b = other.brief();
+                let key: String = b.chars().filter(|c| !c.is_ascii_digit()).take(90).collect();
+                let e = errs.entry(key).or_insert((0, String::new()));
+                e.0 += 1;
+                if e.1.is_empty() {
+                    e.1 = format!("{}\n{}", b, model::prog_text(&prog));
+                }
+            }
+        }
+    }
+    println!("ok {ok}/{n}, items/prog {:.1}, repairs {repairs:?}", items as f64 / n as f64);
+    for (k, (c, ex)) in errs {
+        println!("=== {c} x {k}\n{ex}");
+    }
+    pipeline::cleanup_work_root();
 }
